@@ -108,6 +108,7 @@ let run (path : String.t) (only : String.t) =
             | None -> (corr := false; note "probed topic never opened"))
          | ["oversize"; "->"; res] -> if res <> "ok" then (prop := false; tag "c11"; tag "c08"; note ("a bound replier was harmed by another peer's request that is too large only once tagged: " ^ res))
          | ["iso"; "->"; res] -> if res <> "ok" then (prop := false; tag "c07"; tag "c01"; note ("distinct topic names share traffic: " ^ res))
+         | ["race"; "->"; res] -> if res <> "ok" then (prop := false; tag "c11"; note ("registrations of both messaging patterns racing for a fresh topic: " ^ res))
          | ["alive"; "->"; res] -> alive := true; if res <> "ok" then (prop := false; note ("server no longer serves a fresh topic: " ^ res))
          | "harness_error" :: _ -> prop := false; note lines.(!i)
          | ["end"] -> ended := true
